@@ -1063,6 +1063,37 @@ def check_closediv(facts):
                 r.fail(key, "the comparison at line %s relates one interval's `first` to another's `last` in the orientation `first < last` "
                             "(written %s): with closed intervals this treats two intervals sharing one code point as not overlapping" % (
                                 s["line"], op), facts.loc(fn, s["line"]))
+    # a merge of two sorted interval lists decides *both* disjointness directions for its two cursors
+    from .lbseq import natural_loops as _nl
+    for fn in sorted(facts.body_names()):
+        if not fn.startswith("codepointset::CodePointSet::") or "::tests::" in fn or "{closure" in fn:
+            continue
+        b = facts.body(fn)
+        loops = _nl(b)
+        if not loops:
+            continue
+        inloop = set().union(*loops.values())
+        pairs = {}
+        for bi, i, s in b.iter_stmts():
+            if bi not in inloop or s["k"] != "assign" or s["rv"]["k"] != "bin" or s["rv"]["op"] not in ("Lt", "Le", "Gt", "Ge"):
+                continue
+            a, c = side(b, s["rv"]["a"]), side(b, s["rv"]["b"])
+            if not a or not c or a[1] == c[1] or a[0] == c[0]:
+                continue
+            last_side = a if a[1] == "last" else c
+            first_side = c if a[1] == "last" else a
+            pairs.setdefault(frozenset([a[0], c[0]]), set()).add((last_side[0], first_side[0]))
+        for locs, dirs in pairs.items():
+            x, y = sorted(locs)
+            nx, ny = b.local_name(x) or "the set's interval", b.local_name(y) or "the set's interval"
+            key = "%s decides both `%s before %s` and the reverse" % (fn, nx, ny)
+            if {(x, y), (y, x)} <= dirs:
+                r.ok(key)
+            else:
+                have = sorted("%s.last vs %s.first" % (b.local_name(p) or "interval", b.local_name(q) or "interval") for p, q in dirs)
+                r.fail(key, "the merge loop only tests %s: the other disjointness direction is decided by something else than a last/first "
+                            "comparison (e.g. two `first`s), so an interval that overlaps the head of the other is treated as lying before it" % have,
+                       facts.loc(fn))
     r.floor("first_last_tests", n, 4)
     return r
 
@@ -1349,4 +1380,347 @@ def check_monoid(facts):
                             "loop store no longer has one entry per loop, or groups are counted without their names being recorded" % (
                                 ".".join(fl), s["line"]), facts.loc(fn, s["line"]))
     r.floor("counter_stores", n, 3)
+    return r
+
+
+# ---- FOLDEQ ---------------------------------------------------------------------------------
+
+def check_foldeq(facts):
+    r = RuleResult("FOLDEQ", "InputIndexer::fold_equals decides case-insensitive back-references at match time: two code units are equal under "
+                             "/i when they are identical or when *both* canonicalise to the same thing. Every equality test in it compares "
+                             "either the two raw arguments or the fold of one with the fold of the other; a fold compared with a raw argument "
+                             "(`fold(c1) == c2`) is only right when one side is already canonical — two non-canonical members of one class "
+                             "(U+212A and K, U+017F and S) stop matching each other while literals and classes, expanded at compile time, still do")
+    fn = "indexing::InputIndexer::fold_equals"
+    if not facts.has_body(fn):
+        r.error("anchor %s not found" % fn)
+        return r
+    b = facts.body(fn)
+
+    def kind(op):
+        """('raw', param) | ('fold', param) | ('other',)"""
+        if op.get("k") not in ("copy", "move"):
+            return ("other",)
+        rt, pr = b.root_of(op["pl"]["l"])
+        if 1 <= rt <= b.argc:
+            return ("raw", rt)
+        d = b.single_def(rt)
+        if d and d[2] == "call" and (d[3].get("callee") or "").split("::")[-1] == "fold" and len(d[3]["args"]) >= 2:
+            a = d[3]["args"][1]
+            if a.get("k") in ("copy", "move"):
+                r2, _ = b.root_of(a["pl"]["l"])
+                if 1 <= r2 <= b.argc:
+                    return ("fold", r2)
+        return ("other",)
+    n = 0
+    both = False
+    for bb, t in b.iter_calls():
+        if not (t.get("callee") or "").endswith("PartialEq::eq") and not (t.get("callee") or "").endswith("PartialEq::ne"):
+            continue
+        n += 1
+        ka, kb = kind(t["args"][0]), kind(t["args"][1])
+        key = "%s comparison #%d" % (fn, n)
+        kinds = {ka[0], kb[0]}
+        if kinds == {"raw"} and ka[1] != kb[1]:
+            r.ok(key, "raw == raw")
+        elif kinds == {"fold"} and ka[1] != kb[1]:
+            both = True
+            r.ok(key, "fold(c1) == fold(c2)")
+        else:
+            r.fail(key, "fold_equals compares %s with %s (line %s): a folded value is compared with an unfolded one (or a value with itself)" % (
+                ka, kb, t.get("line")), facts.loc(fn, t.get("line")))
+    for bi, i, s in b.iter_stmts():
+        if s["k"] == "assign" and s["rv"]["k"] == "bin" and s["rv"]["op"] in ("Eq", "Ne"):
+            n += 1
+            ka, kb = kind(s["rv"]["a"]), kind(s["rv"]["b"])
+            key = "%s comparison #%d" % (fn, n)
+            if {ka[0], kb[0]} == {"fold"} and ka[1] != kb[1]:
+                both = True
+                r.ok(key, "fold == fold")
+            elif {ka[0], kb[0]} == {"raw"} and ka[1] != kb[1]:
+                r.ok(key, "raw == raw")
+            else:
+                r.fail(key, "fold_equals compares %s with %s (line %s)" % (ka, kb, s["line"]), facts.loc(fn, s["line"]))
+    if not both:
+        r.fail("%s folds both sides" % fn, "no comparison of fold(c1) with fold(c2) found", facts.loc(fn))
+    r.floor("comparisons", n, 1)
+    return r
+
+
+# ---- RANGEORDER -----------------------------------------------------------------------------
+
+def check_rangeorder(facts):
+    r = RuleResult("RANGEORDER", "a class range `a-b` parsed from the pattern becomes Interval{first: a, last: b} only after `a > b` was tested and "
+                                 "rejected with an error: every Interval built in parse.rs from two different parsed values is dominated by an "
+                                 "ordering comparison of those two values (the sibling range sites — legacy bracket, first and later items of a "
+                                 "v-mode class — all have it). Without it a reversed range reaches CodePointSet::add, whose precondition "
+                                 "`first <= last` is only a debug_assert: a panic in checked builds, a corrupted set in release instead of Err")
+
+    def named_root(b, op, depth=0):
+        if op.get("k") not in ("copy", "move") or depth > 8:
+            return None
+        l = op["pl"]["l"]
+        if b.local_name(l):
+            return l
+        d = b.single_def(l)
+        if not d or d[2] != "assign":
+            return None
+        rv = d[3]["rv"]
+        if rv["k"] in ("use", "cast"):
+            return named_root(b, rv["op"], depth + 1)
+        if rv["k"] == "ref":
+            return named_root(b, {"k": "copy", "pl": rv["pl"]}, depth + 1)
+        return None
+    n = 0
+    for fn in sorted(facts.body_names()):
+        if not fn.startswith("parse::") or "{closure" in fn:
+            continue
+        b = facts.body(fn)
+        dom = b.dom()
+        k = 0
+        for bi, i, s in b.iter_stmts():
+            if s["k"] != "assign" or s["rv"]["k"] != "agg" or not str(s["rv"].get("adt", "")).endswith("codepointset::Interval"):
+                continue
+            ops = s["rv"]["ops"]
+            if len(ops) != 2:
+                continue
+            ra, rb = named_root(b, ops[0]), named_root(b, ops[1])
+            if ra is None or rb is None or ra == rb:
+                continue
+            n += 1
+            k += 1
+            key = "%s range #%d (%s..%s)" % (fn, k, b.local_name(ra), b.local_name(rb))
+            found = None
+            for d in dom[bi]:
+                t = b.blocks[d]["t"]
+                if t["k"] != "switch" or t["discr"].get("k") not in ("copy", "move"):
+                    continue
+                dd = b.single_def(t["discr"]["pl"]["l"])
+                if not dd:
+                    continue
+                pair = None
+                if dd[2] == "assign" and dd[3]["rv"]["k"] == "bin" and dd[3]["rv"]["op"] in ("Gt", "Lt", "Ge", "Le"):
+                    pair = {named_root(b, dd[3]["rv"]["a"]), named_root(b, dd[3]["rv"]["b"])}
+                elif dd[2] == "call" and (dd[3].get("callee") or "").split("::")[-1] in ("gt", "lt", "ge", "le") and len(dd[3]["args"]) == 2:
+                    pair = {named_root(b, dd[3]["args"][0]), named_root(b, dd[3]["args"][1])}
+                if pair == {ra, rb}:
+                    succ = b.succ().get(d, [])
+                    # one edge must not reach the construction (the error return)
+                    if any(bi not in b.reach_from(x) for x in succ):
+                        found = t.get("line")
+            if found:
+                r.ok(key, "ordered by the test at line %s" % found)
+                r.sample({"function": fn, "line": s["line"], "order_test_line": found})
+            else:
+                r.fail(key, "Interval{first: %s, last: %s} is built at line %s without a dominating test that `%s <= %s` (reversed ranges are "
+                            "not rejected on this path): `[xb-a]` panics in checked builds and corrupts the set in release instead of returning "
+                            "a syntax error" % (b.local_name(ra), b.local_name(rb), s["line"], b.local_name(ra), b.local_name(rb)), facts.loc(fn, s["line"]))
+    r.floor("parsed_ranges", n, 3)
+    return r
+
+
+# ---- FLAGSCOPE ------------------------------------------------------------------------------
+
+def check_flagscope(facts):
+    r = RuleResult("FLAGSCOPE", "a modifier group `(?ims-ims:…)` changes the parser's flags for its own body only. Wherever the parser overwrites "
+                                "`self.flags` as a whole after having copied it into a local that is never modified (the saved value), every "
+                                "path from that overwrite to a return passes a whole-struct store `self.flags = <saved>` (cut-set reachability): "
+                                "restoring single fields (`self.flags.icase = saved.icase`) leaks the other modifiers (`m`, `s`) into the rest "
+                                "of the pattern — `/(?s:a).b/` then lets the outer `.` match a newline")
+    n = 0
+    for fn in sorted(facts.body_names()):
+        if not fn.startswith("parse::") or "{closure" in fn:
+            continue
+        b = facts.body(fn)
+        # pure saved copies of self.flags
+        saves = set()
+        for l, ds in b.defs().items():
+            if "api::Flags" not in b.local_ty(l) or l <= b.argc:
+                continue
+            whole = [d for d in ds if d[2] == "assign" and not d[3]["pl"]["p"]]
+            field_stores = [d for d in ds if d[2] == "assign" and d[3]["pl"]["p"]]
+            if len(whole) == 1 and not field_stores and whole[0][3]["rv"]["k"] == "use" and whole[0][3]["rv"]["op"].get("k") in ("copy", "move") \
+                    and core.proj_fields(whole[0][3]["rv"]["op"]["pl"])[-1:] == ["flags"]:
+                # no `&mut saved` taken either
+                saves.add(l)
+        if not saves:
+            continue
+        sets, restores = [], set()
+        for bi, i, s in b.iter_stmts():
+            if s["k"] != "assign" or "*" not in s["pl"]["p"]:
+                continue
+            fl = core.proj_fields(s["pl"])
+            if fl[-1:] != ["flags"]:
+                continue
+            op = s["rv"].get("op") if s["rv"]["k"] == "use" else None
+            src = None
+            if op and op.get("k") in ("copy", "move") and not op["pl"]["p"]:
+                src = op["pl"]["l"]
+                for _ in range(6):
+                    if src in saves:
+                        break
+                    d0 = b.single_def(src)
+                    if d0 and d0[2] == "assign" and d0[3]["rv"]["k"] == "use" and d0[3]["rv"]["op"].get("k") in ("copy", "move") \
+                            and not d0[3]["rv"]["op"]["pl"]["p"]:
+                        src = d0[3]["rv"]["op"]["pl"]["l"]
+                    else:
+                        break
+            if src in saves:
+                restores.add(bi)
+            else:
+                sets.append((bi, s["line"]))
+        for k, (bi, line) in enumerate(sets, 1):
+            n += 1
+            key = "%s scoped flags #%d" % (fn, k)
+            reach = b.reach_from(bi, avoid=restores - {bi})
+            leaks = [x for x in b.exits() if x in reach]
+            if leaks:
+                r.fail(key, "after `self.flags` is replaced at line %s a return is reachable without `self.flags = <saved copy>` (only part of "
+                            "the flags, or nothing, is restored on that path): modifiers of the group stay in force for the rest of the pattern" % line,
+                       facts.loc(fn, line))
+            else:
+                r.ok(key, "every exit restores the saved flags")
+                r.sample({"function": fn, "set_line": line, "restore_blocks": len(restores)})
+    r.floor("scoped_flag_changes", n, 1)
+    return r
+
+
+# ---- PREDSOUND ------------------------------------------------------------------------------
+
+def check_predsound(facts):
+    from .lbseq import natural_loops
+    r = RuleResult("PREDSOUND", "the start predicate may only leave out positions where no match can start, so what it is built from must be "
+                                "complete: (EVERYIV) the loop of cps_to_first_byte_bitmap calls add_utf8_first_bytes_to_bitmap for every interval "
+                                "of the class — no iteration reaches the next one without it (an interval starting under an already set lead "
+                                "byte can still extend to further lead bytes); (PREFIX) in disjunction(Sequence, Sequence) the literal kept is "
+                                "`s1[..n]` with n the immutable count of equal leading bytes of both alternatives — a longer slice is no longer a "
+                                "prefix of the other alternative, so matches starting with it are skipped")
+    # EVERYIV
+    fn = "startpredicate::cps_to_first_byte_bitmap"
+    if not facts.has_body(fn):
+        r.error("anchor %s not found" % fn)
+    else:
+        b = facts.body(fn)
+        adds = [bb for bb, t in b.iter_calls() if (t.get("callee") or "").endswith("add_utf8_first_bytes_to_bitmap")]
+        loops = natural_loops(b)
+        key = "%s adds every interval" % fn
+        if not adds:
+            r.fail(key, "add_utf8_first_bytes_to_bitmap is no longer called", facts.loc(fn))
+        else:
+            cands = [(h, ns) for h, ns in loops.items() if adds[0] in ns]
+            if not cands:
+                r.fail(key, "the call is not inside the loop over the set's intervals", facts.loc(fn))
+            else:
+                h, ns = min(cands, key=lambda x: len(x[1]))
+                succ = b.succ()
+                seen, stack, skipped = set(), [x for x in succ.get(h, []) if x in ns], False
+                while stack:
+                    x = stack.pop()
+                    if x in seen or x in adds or x not in ns:
+                        continue
+                    if x == h:
+                        skipped = True
+                        break
+                    seen.add(x)
+                    stack.extend(succ.get(x, []))
+                if skipped:
+                    r.fail(key, "an iteration of the loop over the intervals can reach the next one without adding the interval's lead bytes "
+                                "(a `continue`): the byte set misses lead bytes of characters in the class, so the prefilter skips matches", facts.loc(fn))
+                else:
+                    r.ok(key, "no path around the call inside the loop")
+                    r.sample({"function": fn, "loop_header_block": h})
+    # PREFIX
+    fn = "startpredicate::AbstractStartPredicate::disjunction"
+    if not facts.has_body(fn):
+        r.error("anchor %s not found" % fn)
+    else:
+        b = facts.body(fn)
+        n = 0
+        for bb, t in b.iter_calls():
+            if not (t.get("callee") or "").endswith("ops::Index::index") or len(t["args"]) < 2:
+                continue
+            ra = t["args"][1]
+            d = b.single_def(ra["pl"]["l"]) if ra.get("k") in ("copy", "move") else None
+            if not d or d[2] != "assign" or d[3]["rv"]["k"] != "agg" or "RangeTo" not in str(d[3]["rv"].get("adt")):
+                continue
+            if t.get("exp"):
+                continue
+            n += 1
+            key = "%s shared-prefix slice #%d" % (fn, n)
+            end = d[3]["rv"]["ops"][0]
+            ok = False
+            why = "its end is a constant"
+            if end.get("k") in ("copy", "move"):
+                cur = end["pl"]["l"]
+                for _ in range(6):
+                    ds = b.defs().get(cur, [])
+                    if len(ds) != 1:
+                        why = "its end `%s` is assigned %d times (it is adjusted after the count)" % (b.local_name(cur) or "_%d" % cur, len(ds))
+                        break
+                    if ds[0][2] == "call":
+                        ok = (ds[0][3].get("callee") or "").endswith("Iterator::count")
+                        why = "its end comes from %s" % (ds[0][3].get("callee") or "?").split("::")[-1]
+                        break
+                    rv = ds[0][3]["rv"]
+                    if rv["k"] == "use" and rv["op"].get("k") in ("copy", "move") and not rv["op"]["pl"]["p"]:
+                        cur = rv["op"]["pl"]["l"]
+                        continue
+                    why = "its end is computed (%s)" % rv["k"]
+                    break
+            if ok:
+                r.ok(key, "s[..count of equal leading bytes]")
+            else:
+                r.fail(key, "the literal kept for two alternatives is sliced at something other than the count of their equal leading bytes "
+                            "(%s): it need not be a prefix of both alternatives" % why, facts.loc(fn, t.get("line")))
+        r.floor("shared_prefix_slices", n, 1)
+    return r
+
+
+# ---- CHARSETALL -----------------------------------------------------------------------------
+
+def check_charsetall(facts):
+    r = RuleResult("CHARSETALL", "Insn::CharSet holds MAX_CHAR_SET_LENGTH slots (the emitter pads short classes, CHARSETPAD); "
+                                 "bytesearch::charset_contains — the membership test both interpreters use — looks at every slot: it either "
+                                 "iterates the whole array (`set.iter()` with no skipping adaptor) or reads constant indices 0..N-1, all of them. "
+                                 "An unrolled version that stops at slot 2 silently drops the fourth member of the four-member case classes "
+                                 "(θ/Θ/ϑ/ϴ, ι/Ι/ͅ/ι)")
+    fn = "bytesearch::charset_contains"
+    if not facts.has_body(fn):
+        r.error("anchor %s not found" % fn)
+        return r
+    b = facts.body(fn)
+    arr = [l for l in range(1, b.argc + 1) if "[u32;" in b.local_ty(l)]
+    if not arr:
+        r.error("charset_contains: array parameter not found")
+        return r
+    m = re.search(r"\[u32; (\d+)\]", b.local_ty(arr[0]))
+    n_slots = int(m.group(1)) if m else None
+    if n_slots is None:
+        m2 = re.search(r"\[u32; ([\w:]+)\]", b.local_ty(arr[0]))
+        for name, c in facts.consts.items():
+            if m2 and name.endswith(m2.group(1).split("::")[-1]) and isinstance(c, dict) and isinstance(c.get("eval", c.get("int")), int):
+                n_slots = c.get("eval", c.get("int"))
+    iters = [t for bb, t in b.iter_calls() if (t.get("callee") or "").endswith("::iter") and t["args"] and t["args"][0].get("k") in ("copy", "move")
+             and b.root_of(t["args"][0]["pl"]["l"])[0] == arr[0]]
+    skipping = [(t.get("callee") or "").split("::")[-1] for bb, t in b.iter_calls()
+                if (t.get("callee") or "").split("::")[-1] in ("take", "skip", "step_by", "take_while", "skip_while", "chunks", "get", "first", "last", "split_at")]
+    import json as _j
+    idx = set()
+    for bi, i, s in b.iter_stmts():
+        for mm in re.finditer(r'\{"cidx": (\d+)', _j.dumps(s)):
+            idx.add(int(mm.group(1)))
+        if s["k"] == "assign":
+            for mm in re.finditer(r'"idx": (\d+)', _j.dumps(s)):
+                c = b.const_of_operand({"k": "copy", "pl": {"l": int(mm.group(1)), "p": []}})
+                if c is not None:
+                    idx.add(c)
+    key = "%s examines all %s slots" % (fn, n_slots)
+    if iters and not skipping:
+        r.ok(key, "iterates the whole array")
+        r.sample({"function": fn, "slots": n_slots, "form": "iter()"})
+    elif n_slots is not None and idx >= set(range(n_slots)) and not iters:
+        r.ok(key, "reads indices %s" % sorted(idx))
+    else:
+        r.fail(key, "charset_contains does not look at every slot of the %s-slot set (iterates whole array: %s, skipping adaptors: %s, constant "
+                    "indices read: %s): members stored in the unread slots never match" % (n_slots, bool(iters), skipping, sorted(idx)), facts.loc(fn))
     return r
